@@ -166,6 +166,10 @@ func c20a(c *Ctx) {
 	isHorizon := func(e ast.Expr) bool { v, ok := constInt(info, e); return ok && v > int64(24*3600*1e9) }
 	c.guardSuccess(f, "read-only only past the horizon", g.EdgesImplying(func(a Atom) bool { rel, ok := cmpRel(a, isSinceLimit, isHorizon); return ok && rel == relGT }), sunsetRets,
 		"a log can be reported read-only (stale checkpoint tolerated) before its read-only date")
+	// ... and conversely a log past its read-only date is never plainly healthy: freshness alone is not
+	// enough there, the checkpoint has to be the recorded final tree (seed C20-n2 tested freshness first)
+	c.guardSuccess(f, "healthy only before the horizon", g.EdgesImplying(func(a Atom) bool { rel, ok := cmpRel(a, isSinceLimit, isHorizon); return ok && rel&relGT == 0 }), nilRets,
+		"a log past its read-only date is reported healthy on the strength of a fresh checkpoint alone: it may have grown past (or lack) the recorded final tree")
 }
 
 func c20b(c *Ctx) {
